@@ -244,6 +244,10 @@ func (p *PostingsList) read(postingsOffset uint64, d *Dictionary) error {
 		return p.init1Hit(postingsOffset)
 	}
 
+	// a reused list may still carry the markers of an earlier "1-hit" term
+	p.docNum1Hit = 0
+	p.normBits1Hit = 0
+
 	// read the location of the freq/norm details
 	var n uint64
 	var read int
